@@ -443,6 +443,83 @@ func judgeAgain(c *core.Ctx, t tcase, o panrun.Obs) {
 	}
 }
 
+// ---------------------------------------------------------------- one Either continued more than once
+
+// `e := r.try` is a value: continuing it with one step leaves e - and what was continued from it earlier - as they
+// were. e is continued with s1, then with s2; a, b, e and a again are compared with the plain outcomes.
+type storedCase struct {
+	Mode   string `json:"mode"` // "stored"
+	Recv   string `json:"recv"`
+	S1, S2 step
+}
+
+func (t storedCase) src() string {
+	row := func(plain, wrapped string) string {
+		return "[nil.try.{|u| " + plain + "}.A, nil.try.{|u| " + wrapped + ".A}.A]"
+	}
+	return "e := " + t.Recv + ".try\na := e" + t.S1.Src + "\nb := e" + t.S2.Src + "\n[" + row(t.Recv+t.S1.Src, "a") + ", " + row(t.Recv+t.S2.Src, "b") + ", " + row(t.Recv, "e") + ", " + row(t.Recv+t.S1.Src, "a") + "]"
+}
+
+func genStored(emit func(storedCase)) {
+	alpha := reducedAlphabetQuick()
+	for _, r := range []string{"5", `"a"`, "[1, 2]", "oo"} {
+		for _, s1 := range alpha {
+			for _, s2 := range alpha {
+				if (s1.Obj || s2.Obj) && r != "oo" {
+					continue
+				}
+				if s1.Tag != "" || s2.Tag != "" {
+					continue // the known proxy classes are the subject of the main family
+				}
+				emit(storedCase{Mode: "stored", Recv: r, S1: s1, S2: s2})
+			}
+		}
+	}
+}
+
+func judgeStored(c *core.Ctx, t storedCase, o panrun.Obs) {
+	c.Validated(1)
+	c.Nontrivial(1)
+	if o.Kind == "syntax" {
+		c.HarnessError("stored program does not parse: %s: %s", t.src(), o.ErrMsg)
+		return
+	}
+	rows, ok := o.Val.(*object.PanArr)
+	if o.Kind != "value" || !ok || len(rows.Elems) != 4 {
+		c.Outcome("stored-" + o.Kind)
+		return // the set-up itself failed (a step that raises outside try): nothing to compare
+	}
+	names := []string{"a (e continued with s1)", "b (e continued with s2)", "e itself", "a after e was continued again"}
+	for i, row := range rows.Elems {
+		pr, ok := row.(*object.PanArr)
+		if !ok || len(pr.Elems) != 2 {
+			c.HarnessError("stored row malformed: %s", row.Repr())
+			return
+		}
+		plain, okp := pr.Elems[0].(*object.PanArr)
+		if !okp || len(plain.Elems) != 2 {
+			c.HarnessError("stored row malformed: %s", row.Repr())
+			return
+		}
+		want := ""
+		if ew, isErr := plain.Elems[1].(*object.PanErrWrapper); isErr {
+			want = "[[nil, [" + string(ew.ErrKind) + ": " + ew.Msg + "]], nil]"
+			if strings.Contains(ew.Msg, "is not defined") && ew.ErrKind == "NoPropErr" {
+				continue // absent-property class (known finding of the main family)
+			}
+		} else {
+			want = "[[" + plain.Elems[0].Repr() + ", nil], nil]"
+		}
+		got := pr.Elems[1].Repr()
+		c.Outcome(fmt.Sprintf("stored:%v", got == want))
+		if got != want {
+			c.Violation(core.Violation{Key: "either-changed-by-continuing-it/" + []string{"first-continuation", "second-continuation", "the-either-itself", "first-continuation-afterwards"}[i], Case: core.JSON(t), Desc: strings.ReplaceAll(t.src(), "\n", "; "),
+				Expected: names[i] + ": " + want, Observed: got, Repro: prelude + t.src() + ".p\n"})
+			return
+		}
+	}
+}
+
 func run(c *core.Ctx) {
 	n := 0
 	// every case contributes two thunks (plain, wrapped); plain results are reused inside a batch
@@ -478,6 +555,7 @@ func run(c *core.Ctx) {
 		pending = nil
 	})
 	c.Note("thunks_total", total)
+	tk.Batched(c, 200, prelude, func(emit func(storedCase)) { genStored(emit) }, func(t storedCase) string { return t.src() }, func(t storedCase, o panrun.Obs) { judgeStored(c, t, o) })
 	tk.Batched(c, 300, prelude, func(emit func(tcase)) { genAgain(emit) }, func(t tcase) string { return t.againSrc() }, func(t tcase, o panrun.Obs) { judgeAgain(c, t, o) })
 }
 
@@ -485,6 +563,13 @@ func replay(c *core.Ctx, raw json.RawMessage) {
 	var t tcase
 	if err := json.Unmarshal(raw, &t); err != nil {
 		c.HarnessError("bad case: %v", err)
+		return
+	}
+	var st storedCase
+	if json.Unmarshal(raw, &st) == nil && st.Mode == "stored" {
+		obs := c.R().Thunks(prelude, []string{st.src()}, "")
+		c.Eval(1)
+		judgeStored(c, st, obs[0])
 		return
 	}
 	if len(t.Again) > 0 {
